@@ -122,7 +122,10 @@ impl Future for Never {
 }
 
 impl SimNet for SimNetwork {
-    fn connect(&self, _addr: SocketAddr) -> Pin<Box<dyn Future<Output = Option<PhysLayer>> + Send>> {
+    fn connect(
+        &self,
+        _addr: SocketAddr,
+    ) -> Pin<Box<dyn Future<Output = Option<PhysLayer>> + Send>> {
         let now = kernel::current().map(|c| c.now_ms()).unwrap_or(0);
         let mut n = self.inner.lock().unwrap();
         let plan = n.plan.pop_front().unwrap_or(ConnectPlan::Accept);
@@ -160,7 +163,9 @@ impl SimNet for SimNetwork {
                     c.jitter_ms = n.jitter.1;
                 }
                 n.chunk_seed = n.chunk_seed.wrapping_add(0x9E37);
-                let sock = SimSocket::new("client", s2c.clone(), c2s.clone(), n.chunk, n.chunk_seed).closing_on_drop();
+                let sock =
+                    SimSocket::new("client", s2c.clone(), c2s.clone(), n.chunk, n.chunk_seed)
+                        .closing_on_drop();
                 n.accepted.push_back(Accepted {
                     to_client: s2c,
                     from_client: c2s,
